@@ -93,3 +93,46 @@ fn c14_equals_checker_and_stamp_routes() {
   ::std::mem::forget(st);
 }
 
+
+/// TypeToAnyMap (pie's per-resource-type state): state stored for one resource type is never visible through, or replaced by,
+/// an access for another resource type — also when both use the same state type; `set`/`get` and the default-initialising
+/// accessors see the same slot; a non-matching state type is replaced by the default for that resource type only.
+//@h props=C14 tier=quick unwind=8 stubs=sort timeout=900 fieldsens=1024
+fn c14_typed_state_isolation() {
+  let (a, b) = (vk::u8(), vk::u8());
+  split(4, |k| {
+    let mut m = TypeToAnyMap::default();
+    match k {
+      0 => { // set, then default-initialising access on the same resource type: same slot
+        m.set::<Cell, u32>(a as u32);
+        assert!(*m.get_or_set_default::<Cell, u32>() == a as u32, "C14 get_or_set_default sees the state stored with set");
+        *m.get_or_set_default_mut::<Cell, u32>() = b as u32;
+        assert!(m.get::<Cell, u32>().copied() == Some(b as u32), "C14 get sees what was stored through get_or_set_default_mut");
+      }
+      1 => { // two resource types sharing one state type
+        *m.get_or_set_default_mut::<Cell, u32>() = a as u32;
+        assert!(*m.get_or_set_default::<K1, u32>() == 0, "C14 state of one resource type is not visible through another resource type with the same state type");
+        *m.get_or_set_default_mut::<K1, u32>() = b as u32;
+        assert!(m.get::<Cell, u32>().copied() == Some(a as u32), "C14 state of one resource type is not replaced by an access for another");
+        assert!(m.get::<K1, u32>().copied() == Some(b as u32), "C14 each resource type has its own slot");
+      }
+      2 => { // non-matching state type is replaced by the default, for that resource type only
+        m.set::<Cell, u8>(a);
+        m.set::<K1, u8>(b);
+        assert!(*m.get_or_set_default::<Cell, u32>() == 0, "C14 a non-matching state is replaced by the default");
+        assert!(m.get::<Cell, u8>().is_none(), "C14 the replaced state is gone");
+        assert!(m.get::<K1, u8>().copied() == Some(b), "C14 other resource types keep their state");
+      }
+      _ => { // a map stored with set is the map the resource reads
+        let mut hm: HashMap<K1, u8> = HashMap::default();
+        hm.insert(K1(1), a);
+        <TypeToAnyMap as ResourceState<K1>>::set(&mut m, hm);
+        assert!(read1(&mut m, 1) == Some(a), "C14 a map stored through the resource state is what the resource reads");
+        { let key = K1(0); let mut w = key.write(&mut m).unwrap(); w.insert(b); }
+        let got = <TypeToAnyMap as ResourceState<K1>>::get::<HashMap<K1, u8>>(&m).and_then(|h| h.get(&K1(0)).copied());
+        assert!(got == Some(b), "C14 writer inserts are visible through the typed state getter");
+      }
+    }
+    ::std::mem::forget(m);
+  });
+}
